@@ -11,14 +11,16 @@ Line-protocol driver for C16.  One request per line, one answer per line.
     track   <cfg> <op>*     model of the solver classes, state after every step:   <state>;<state>;…  (err <e> ends it)
     specops <op>*           Spec: live assertions after every step:                <ids>;<ids>;…      (illegal ends it)
     placement <class>       Config read off Gen/PendingPop for the class:          <cfg> <concrete> <usesBaseIsSat> <extras>
+    evaltrack <cfg> <cmd>*  the script executed on the solver model through `interp` (state after every CALL)
     classes                 names in Gen/PendingPop
 
   cmd:  a<f> assert | o<g> objective | s<id>.<f>.<w> assert-soft | u<n> push | p<n> pop | r reset-assertions
         | c check-sat | x other
   op:   a<f> | u<n> | p<n> | r | s solve | qs<f> is_sat | qv<f> is_valid | qu<f> is_unsat | qa<f> solve([f]) | g read
+        | w<f> solve([f]) through a temporary level | W<f> the same, asserting f raises
         | S solve() whose check raises | x{s,v,u,a}<f> the query, its check raises | y{s,v,u,a}<f> the query, asserting
         its formula raises      (a state is followed by `!` when the call ended with that exception)
-  cfg:  9 characters 0/1: dAdd dPush dPop dReset dSolve dRead tracking native pushSupported
+  cfg:  11 characters 0/1: dAdd dPush dPop dReset dSolve dRead tracking native pushSupported assumePush assumeGuarded
   ids:  comma separated numbers (`-` for the empty list); goals: `;`-separated, `o<g>` or `m<f>.<w>,<f>.<w>…`
   state: <native levels, innermost first, `|`-separated>/<tracked>/<points, most recent first>/<pending 0|1>/<last check or ->
 -/
@@ -70,6 +72,8 @@ def parseOp (t : String) : Option Op :=
     | 'u' => r2.toNat?.map (Op.oneshot .isUnsat)
     | 'a' => r2.toNat?.map (Op.oneshot .assuming)
     | _ => none
+  | 'w' => rest.toNat?.map Op.assumingPush
+  | 'W' => rest.toNat?.map Op.assumingPushFails
   | 'S' => if rest.isEmpty then some .solveFails else none
   | 'x' => parseFails .solve rest
   | 'y' => parseFails .add rest
@@ -95,15 +99,15 @@ def trackErr : SolverTrack.Err → String
 
 def parseCfg (s : String) : Option SolverTrack.Config :=
   match s.toList.map (fun ch => if ch == '1' then some true else if ch == '0' then some false else none) with
-  | [some a, some b, some c, some d, some e, some f, some g, some h, some i] =>
-    some ⟨a, b, c, d, e, f, g, h, i⟩
+  | [some a, some b, some c, some d, some e, some f, some g, some h, some i, some j, some k] =>
+    some ⟨a, b, c, d, e, f, g, h, i, j, k⟩
   | _ => none
 
 def bit (b : Bool) : String := if b then "1" else "0"
 
 def cfgStr (c : SolverTrack.Config) : String :=
   bit c.dAdd ++ bit c.dPush ++ bit c.dPop ++ bit c.dReset ++ bit c.dSolve ++ bit c.dRead ++
-  bit c.tracking ++ bit c.native ++ bit c.pushSupported
+  bit c.tracking ++ bit c.native ++ bit c.pushSupported ++ bit c.assumePush ++ bit c.assumeGuarded
 
 def stateStr (st : SolverTrack.St) : String :=
   "|".intercalate (st.native.map ids) ++ "/" ++ ids st.tracked ++ "/" ++ ids st.points ++ "/" ++
@@ -151,6 +155,14 @@ def answer (line : String) : String :=
     | some c =>
       let t := Gen.PendingPop.classes
       s!"{cfgStr (SolverTrack.configOf t c)} {bit (SolverTrack.isConcrete t c)} {bit (SolverTrack.usesBaseIsSat t c)} {bit (SolverTrack.extrasCovered t c)}"
+  | "interp" :: ts => match parseAll parseCmd ts with
+    | none => "bad-op"
+    | some cs => if cs.all SolverTrack.Plain then s!"ok {(SolverTrack.interp cs).length}" else "not-plain"
+  | "evaltrack" :: c :: ts => match parseCfg c, parseAll parseCmd ts with
+    | some cfg, some cs =>
+      if cs.all SolverTrack.Plain then ";".intercalate (trackRun cfg SolverTrack.St.init (SolverTrack.interp cs))
+      else "not-plain"
+    | _, _ => "bad-op"
   | ["classes"] => " ".intercalate (Gen.PendingPop.classes.map (·.name))
   | _ => "bad-op"
 
